@@ -1,9 +1,11 @@
 package utils
 
 import (
+	"bytes"
 	"context"
 	"crypto/tls"
 	"crypto/x509"
+	"encoding/pem"
 	"time"
 
 	sdk "github.com/cosmos/cosmos-sdk/types"
@@ -66,8 +68,22 @@ func NewServerTLSConfig(ctx context.Context, certs []tls.Certificate, cquery cty
 					return errors.New("tls: attempt to use non-existing or revoked certificate")
 				}
 
+				// the presented certificate must be the very certificate published on chain:
+				// verify against the on-chain certificate, never against the presented one
+				blk, rest := pem.Decode(resp.Certificates[0].Certificate.Cert)
+				if blk == nil || len(rest) > 0 {
+					return errors.New("tls: invalid certificate stored on chain")
+				}
+				onchain, err := x509.ParseCertificate(blk.Bytes)
+				if err != nil {
+					return errors.Wrap(err, "tls: failed to parse certificate stored on chain")
+				}
+				if !bytes.Equal(onchain.Raw, cert.Raw) {
+					return errors.New("tls: presented certificate does not match the certificate on chain")
+				}
+
 				clientCertPool := x509.NewCertPool()
-				clientCertPool.AddCert(cert)
+				clientCertPool.AddCert(onchain)
 
 				opts := x509.VerifyOptions{
 					Roots:                     clientCertPool,
